@@ -2,5 +2,5 @@ SPECIFICATION TSpec
 CONSTANTS
   H = 5
   MaxCorrupt = 1000000
-INVARIANTS ConformOk ConformValue ConformState Bound49 Compact
+INVARIANTS ProducerExact ConformOk ConformValue ConformState Bound49 Compact
 CHECK_DEADLOCK TRUE
